@@ -475,3 +475,108 @@ func init() {
 	// missing username
 	if len(body.User) == 0 {`}}})
 }
+
+func init() {
+	// ---- C01 ------------------------------------------------------------------------------
+	addMutant(Mutant{Name: "c01-authenreply-lengths-swapped-both-sides", Props: []string{"C01"}, Rule: "R-LAYOUT", KeySub: "AuthenReply",
+		Why: "server_msg_len and data_len swapped in encoder and decoder alike: every round-trip test still passes",
+		Edits: []Edit{{File: "authenticate.go", Old: `	buf = appendUint16(buf, a.ServerMsg.Len())
+	buf = appendUint16(buf, a.Data.Len())
+	buf = append(buf, a.ServerMsg...)`, New: `	buf = appendUint16(buf, a.Data.Len())
+	buf = appendUint16(buf, a.ServerMsg.Len())
+	buf = append(buf, a.ServerMsg...)`},
+			{File: "authenticate.go", Old: `	serverMsgLen := buf.uint16()
+	dataLen := buf.uint16()
+
+	a.ServerMsg = AuthenServerMsg(buf.string(serverMsgLen))`, New: `	dataLen := buf.uint16()
+	serverMsgLen := buf.uint16()
+
+	a.ServerMsg = AuthenServerMsg(buf.string(serverMsgLen))`}}})
+	addMutant(Mutant{Name: "c01-little-endian-16-both-sides", Props: []string{"C01"}, Rule: "R-LAYOUT", KeySub: "",
+		Why: "16-bit lengths little-endian in the helper pair: self-consistent, breaks every real device",
+		Edits: []Edit{{File: "packet.go", Old: `	return append(b, byte(i>>8), byte(i))`, New: `	return append(b, byte(i), byte(i>>8))`},
+			{File: "packet.go", Old: `		n := int(s[0])<<8 | int(s[1])`, New: `		n := int(s[1])<<8 | int(s[0])`}}})
+	addMutant(Mutant{Name: "c01-acctreply-status-first-both-sides", Props: []string{"C01"}, Rule: "R-LAYOUT", KeySub: "AcctReply",
+		Why: "status before the lengths in the accounting reply, in both directions",
+		Edits: []Edit{{File: "accounting.go", Old: `	buf = appendUint16(buf, a.ServerMsg.Len())
+	buf = appendUint16(buf, a.Data.Len())
+	buf = append(buf, uint8(a.Status))
+	buf = append(buf, a.ServerMsg...)`, New: `	buf = append(buf, uint8(a.Status))
+	buf = appendUint16(buf, a.ServerMsg.Len())
+	buf = appendUint16(buf, a.Data.Len())
+	buf = append(buf, a.ServerMsg...)`},
+			{File: "accounting.go", Old: `	serverMsgLen := buf.uint16()
+	dataLen := buf.uint16()
+	a.Status = AcctReplyStatus(buf.byte())
+`, New: `	a.Status = AcctReplyStatus(buf.byte())
+	serverMsgLen := buf.uint16()
+	dataLen := buf.uint16()
+`}}})
+	addMutant(Mutant{Name: "c01-authorrequest-port-remaddr-swapped", Props: []string{"C01"}, Rule: "R-LAYOUT", KeySub: "AuthorRequest",
+		Why: "port and rem_addr bodies swapped on both sides",
+		Edits: []Edit{{File: "authorize.go", Old: `	buf = append(buf, a.User...)
+	buf = append(buf, a.Port...)
+	buf = append(buf, a.RemAddr...)
+
+	for _, arg := range a.Args {
+		buf = append(buf, arg...)
+	}
+
+	return buf, nil
+}
+
+// UnmarshalBinary decodes decrypted tacacs bytes into AuthorRequest`, New: `	buf = append(buf, a.User...)
+	buf = append(buf, a.RemAddr...)
+	buf = append(buf, a.Port...)
+
+	for _, arg := range a.Args {
+		buf = append(buf, arg...)
+	}
+
+	return buf, nil
+}
+
+// UnmarshalBinary decodes decrypted tacacs bytes into AuthorRequest`},
+			{File: "authorize.go", Old: `	a.User = AuthenUser(buf.string(userLen))
+	a.Port = AuthenPort(buf.string(portLen))
+	a.RemAddr = AuthenRemAddr(buf.string(remAddrLen))
+
+	a.Args = make(Args, 0, argCnt)
+	for _, n := range argLens {
+		a.Args = append(a.Args, Arg(buf.string(n)))
+	}
+
+	// detect secret mismatch
+	if a.Len() != userLen+portLen+remAddrLen+totalArgLen {
+		return NewBadSecretErr("bad secret detected authorrequest")`, New: `	a.User = AuthenUser(buf.string(userLen))
+	a.RemAddr = AuthenRemAddr(buf.string(remAddrLen))
+	a.Port = AuthenPort(buf.string(portLen))
+
+	a.Args = make(Args, 0, argCnt)
+	for _, n := range argLens {
+		a.Args = append(a.Args, Arg(buf.string(n)))
+	}
+
+	// detect secret mismatch
+	if a.Len() != userLen+portLen+remAddrLen+totalArgLen {
+		return NewBadSecretErr("bad secret detected authorrequest")`}}})
+	addMutant(Mutant{Name: "c01-version-nibbles-swapped-both-sides", Props: []string{"C01"}, Rule: "R-LAYOUT", KeySub: "Header",
+		Why: "major/minor nibbles swapped in both directions",
+		Edits: []Edit{{File: "header_fields.go", Old: `	return []byte{v.MajorVersion<<4 | v.MinorVersion}, nil`, New: `	return []byte{v.MinorVersion<<4 | v.MajorVersion}, nil`},
+			{File: "header_fields.go", Old: `	v.MajorVersion = data[0] >> 4
+	v.MinorVersion = data[0] & 0xf`, New: `	v.MinorVersion = data[0] >> 4
+	v.MajorVersion = data[0] & 0xf`}}})
+	addMutant(Mutant{Name: "c01-session-id-little-endian", Props: []string{"C01"}, Rule: "R-LAYOUT", KeySub: "Header",
+		Why: "session id written and read little-endian",
+		Edits: []Edit{{File: "header.go", Old: `	binary.BigEndian.PutUint32(buf[4:], uint32(h.SessionID))`, New: `	binary.LittleEndian.PutUint32(buf[4:], uint32(h.SessionID))`},
+			{File: "header.go", Old: `	h.SessionID = SessionID(binary.BigEndian.Uint32(data[4:]))`, New: `	h.SessionID = SessionID(binary.LittleEndian.Uint32(data[4:]))`}}})
+	addMutant(Mutant{Name: "c01-authen-status-values", Props: []string{"C01"}, Rule: "R-ENUM", KeySub: "AuthenStatus",
+		Why: "GETPASS and GETUSER constants exchanged",
+		Edits: []Edit{{File: "authenticate_fields.go", Old: `	AuthenStatusGetUser AuthenStatus = 0x04`, New: `	AuthenStatusGetUser AuthenStatus = 0x05`},
+			{File: "authenticate_fields.go", Old: `	AuthenStatusGetPass AuthenStatus = 0x05`, New: `	AuthenStatusGetPass AuthenStatus = 0x04`}}})
+	addMutant(Mutant{Name: "c01-validate-misses-member", Props: []string{"C01", "C02"}, Rule: "R-ENUM", KeySub: "validate:AuthorStatus",
+		Why: "AuthorStatus.Validate no longer accepts PASS_REPL: replies with optional values cannot be encoded or decoded",
+		Edits: []Edit{{File: "authorize_fields.go", Old: `	case AuthorStatusPassAdd, AuthorStatusPassRepl, AuthorStatusFail, AuthorStatusError:
+		return nil`, New: `	case AuthorStatusPassAdd, AuthorStatusFail, AuthorStatusError:
+		return nil`}}})
+}
